@@ -84,6 +84,16 @@ theorem content_format_roundtrip (p : Packet) (f : ContentFormat) (hs : p.option
       q.header = p.header ∧ q.token = p.token ∧ q.payload = p.payload :=
   Lemmas.content_format_roundtrip p f hs
 
+/-- `set_observe_value` / `get_observe_value`: the setter replaces whatever Observe values were there by
+the one minimal encoding, the getter returns the number (32-bit width) -/
+theorem observe_value_roundtrip (p : Packet) (hs : p.options.Sorted) (v : Nat) (hv : v < 2 ^ 32) :
+    ∃ q, p.setObserveValue v = .ok q ∧ q.getObserveValue = some (.ok v) ∧
+      q.getOption (CoapOption.toU16 .Observe) = some [minimalBE v] ∧
+      (∀ n, n ≠ CoapOption.toU16 .Observe → q.getOption n = p.getOption n) := by
+  obtain ⟨q, h1, h2, h3, h4, _⟩ :=
+    Lemmas.replaceUint_spec p hs (CoapOption.toU16 .Observe) 4 v (by simpa using hv)
+  exact ⟨q, h1, h3, h2, h4⟩
+
 /-- an option value that is not a named format (or is longer than 2 bytes)
 reads as "no content format", not as some named value -/
 theorem content_format_unnamed (p : Packet) (v : Bytes) (rest : List Bytes)
